@@ -47,6 +47,7 @@ func runC04(c *Ctx) {
 				}
 			}
 			c.AtomicDiscipline("atomic", all...)
+			c.NoLostUpdate("rmw", all...)
 			c.Ok("scanned", "every first-party package scanned for mixed atomic/plain access", "-")
 		})
 	}
